@@ -82,6 +82,7 @@ CANON_PREFIX = [
 TRANSPARENT = {
     "np.array", "np.asarray", "np.float64", "float", "np.squeeze",
     "np.ravel", "jax.device_put", "jax.device_get",
+    "operator.index",  # the integer itself (raises for non-integers)
 }
 POINTWISE = {"where", "abs", "exp", "log", "clip", "minimum", "maximum", "not", "and", "or", "astype"}
 REDUCERS = {"max", "min", "sum", "any", "all", "argmax", "argmin", "prod", "mean", "count_nonzero"}
@@ -879,7 +880,79 @@ class Interp:
             return None
         if k == "record":
             return None
+        if k == "app" and t[1] in REDUCERS and len(t[2]) == 2 and t[2][1][0] == "kw" and t[2][1][1] == "axis" and is_num(t[2][1][2]):
+            inner = self.shape_of(t[2][0])
+            if inner is not None:
+                ax_ = int(t[2][1][2][1])
+                if -len(inner) <= ax_ < len(inner):
+                    ax_ %= len(inner)
+                    return tuple(inner[:ax_]) + tuple(inner[ax_ + 1:])
         return None
+
+    def length_of(self, t, depth=0):
+        """Length (size of the leading axis) of a vector term as a term, when it is evident; None otherwise."""
+        if depth > 12:
+            return None
+        k = t[0]
+        if k == "app":
+            name, a = t[1], t[2]
+            if name == "slice" and len(a) == 4 and a[3] == NONE:
+                lo, hi = a[1], a[2]
+                if lo == NONE:
+                    lo = ZERO
+                if hi != NONE and not (is_num(hi) and hi[1] < 0) and not (is_num(lo) and lo[1] < 0):
+                    return T_sub(hi, lo)
+                return None
+            if name == "hstack":
+                total = ZERO
+                for x in a:
+                    if x[0] == "kw":
+                        continue
+                    n = self.length_of(x, depth + 1)
+                    if n is None:
+                        if x[0] in ("lam", "tuple") or self.axes_of(x):
+                            return None
+                        n = ONE  # a scalar contributes one element
+                    total = T_add(total, n)
+                return total
+            if name in POINTWISE or name in ("flip", "cumsum", "roll", "sort", "array", "asarray"):
+                for x in a:
+                    if isinstance(x, tuple) and x and x[0] != "kw":
+                        n = self.length_of(x, depth + 1)
+                        if n is not None:
+                            return n
+                return None
+            if name in ("zeros", "ones") and a and a[0][0] != "tuple" and a[0][0] != "kw":
+                return a[0]
+            if name == "arange" and len([x for x in a if x[0] != "kw"]) == 1:
+                return a[0]
+        if k == "poly":
+            for mono, _c in t[1]:
+                for atom, _p in mono:
+                    n = self.length_of(atom, depth + 1)
+                    if n is not None:
+                        return n
+            return None
+        if k == "lam":
+            sizes = self.axis_sizes.get(t[2], ())
+            if len(sizes) == 1:
+                return next(iter(sizes))
+            # a map over the positions of some vector: as long as the vectors its variable indexes
+            found = set()
+            for x in subterms(t[3]):
+                if x[0] == "elem" and len(x[2]) == 1 and x[2][0] == t[1]:
+                    n = self.length_of(x[1], depth + 1)
+                    if n is not None:
+                        found.add(n)
+            return next(iter(found)) if len(found) == 1 else None
+        if k == "ite":
+            x, y = self.length_of(t[2], depth + 1), self.length_of(t[3], depth + 1)
+            return x if x is not None and x == y else None
+        if k == "sym":
+            sh = self.sym_shapes.get(t[1])
+            return sh[0] if sh else None
+        dims = self.shape_of(t)
+        return dims[0] if dims else None
 
     def index(self, base, idx):
         k = base[0]
@@ -921,6 +994,13 @@ class Interp:
         if idx[0] == "tuple":
             # multi-axis index; scalar components peel leading axes, full slices keep them
             items = idx[1]
+            # x[..., newaxis] / x[:, :, None]: a trailing unit axis - the reshape to (*x.shape, 1) - when the shape is evident
+            def _newaxis(v):
+                return v == NONE or (v[0] == "mod" and v[1].split(".")[-1] == "newaxis")
+            if len(items) >= 2 and _newaxis(items[-1]) and (items[:-1] == (("const", Ellipsis),) or all(v == ("slice", NONE, NONE, NONE) for v in items[:-1])):
+                dims_ = self.shape_of(base)
+                if dims_ is not None and (items[0] == ("const", Ellipsis) or len(items) - 1 == len(dims_)):
+                    return self.reshape(base, list(dims_) + [ONE])
             if all(x[0] != "slice" and not self.axes_of(x) for x in items):
                 r = base
                 for x in items:
@@ -937,6 +1017,14 @@ class Interp:
                 return self.index(self.elem(base, first), rest) if items[1:] else self.elem(base, first)
             return ("elem", base, tuple(items))
         if idx[0] == "slice":
+            lo, hi, stp = idx[1:]
+            # x[:-k] / x[-k:] of a vector whose length is evident are the slices with explicit bounds
+            if stp == NONE and ((is_num(hi) and hi[1] < 0) or (is_num(lo) and lo[1] < 0)):
+                n = self.length_of(base)
+                if n is not None:
+                    lo = ZERO if lo == NONE else (T_add(n, lo) if is_num(lo) and lo[1] < 0 else lo)
+                    hi = n if hi == NONE else (T_add(n, hi) if is_num(hi) and hi[1] < 0 else hi)
+                    return ("app", "slice", (base, lo, hi, NONE))
             return ("app", "slice", (base,) + idx[1:])
         if idx[0] == "lam":
             return ("lam", idx[1], idx[2], self.elem(base, idx[3]))
@@ -993,6 +1081,17 @@ class Interp:
         h = self.prims.get(name)
         if h is not None:
             return h(self, args, kw, node)
+        if name == "lax.dynamic_index_in_dim" and len(args) >= 2:
+            # row / column i of a matrix: the dynamic_slice of extent 1 along that axis over the whole of the other one
+            ax_ = kw.get("axis", args[2] if len(args) > 2 else ZERO)
+            dims_ = self.shape_of(args[0])
+            if is_num(ax_) and int(ax_[1]) in (0, 1) and dims_ is not None and len(dims_) == 2:
+                if int(ax_[1]) == 1:
+                    return ("app", "lax.dynamic_slice", (args[0], ("tuple", (ZERO, args[1])), ("tuple", (dims_[0], ONE))))
+                return ("app", "lax.dynamic_slice", (args[0], ("tuple", (args[1], ZERO)), ("tuple", (ONE, dims_[1]))))
+        if name == "lax.dynamic_slice" and len(args) == 3 and not kw and args[1] == ("tuple", (ZERO,)) and args[2][0] == "tuple" and len(args[2][1]) == 1:
+            # a static-start slice of a vector: x[:n]
+            return self.index(args[0], ("slice", NONE, args[2][1][0], NONE))
         if name in ("np.array", "np.asarray") and args and "dtype" in kw:
             d = kw["dtype"]
             static_int = (d[0] == "mod" and d[1].split(".")[-1] in ("int32", "int64", "int16", "int8", "uint8", "uint32", "int_")) or d == ("builtin", "int")
@@ -1027,6 +1126,8 @@ class Interp:
                     return INF
                 return ("app", name, (a,))
             if name == "int" and not (is_num(a) and a[1].denominator == 1):
+                if _integer_valued(a):
+                    return a  # int() of a count (len, a shape entry, sums / products of those) is the count
                 if (self.cls is None or (self._owners and self._owners[-1] is None)) and _integer_polynomial(a):
                     return a  # in a module-level utility: int() of a +,-,* combination of array elements with integer coefficients
                 return ("app", "int", (a,))  # truncation is not value-transparent
@@ -1543,6 +1644,18 @@ def _vector_items(t):
         if all(x[0] != "tuple" for x in items):
             return list(items)
     return None
+
+
+def _integer_valued(t) -> bool:
+    """evidently an integer: a length, a shape entry, an integer constant, or a +, -, * combination of those"""
+    k = t[0]
+    if k == "const":
+        return is_num(t) and t[1].denominator == 1
+    if k == "app" and t[1] in ("len", "shape"):
+        return True
+    if k == "poly":
+        return all(c.denominator == 1 and all(p >= 0 and _integer_valued(a) for a, p in mono) for mono, c in t[1])
+    return False
 
 
 def _integer_polynomial(t) -> bool:
